@@ -53,7 +53,7 @@ func (in *Interp) installLibStubs() {
 	const mp = "github.com/vmihailenco/msgpack/v5"
 	const ro = "github.com/RoaringBitmap/roaring/roaring64"
 	S[mp+".NewDecoder"] = func(in *Interp, fn *ssa.Function, a []Value) Value {
-		return PtrV{&Loc{v: BVu(8, 0)}}
+		return PtrV{loc: &Loc{v: BVu(8, 0)}}
 	}
 	S["(*"+mp+".Decoder).Reset"] = func(in *Interp, fn *ssa.Function, a []Value) Value {
 		in.decs[a[0].(PtrV).loc] = a[1]
@@ -66,7 +66,7 @@ func (in *Interp) installLibStubs() {
 		}
 		// reader is *bytes.Reader: field 0 is the []byte
 		r := rd.(IfaceV).v.(PtrV).loc
-		data := r.sub[0].v.(SliceV)
+		data := r.sub[0].get().(SliceV)
 		payload, ok := in.payloadOf(data)
 		if !ok {
 			in.abort("unsupported", "Query on non-abstract bytes")
@@ -102,7 +102,7 @@ func (in *Interp) installLibStubs() {
 	newSet := func(in *Interp, fn *ssa.Function, a []Value) Value {
 		l := &Loc{v: BVu(8, 0)}
 		in.sets[l] = &SetObj{}
-		return PtrV{l}
+		return PtrV{loc: l}
 	}
 	S[ro+".New"] = newSet
 	S[ro+".NewBitmap"] = newSet
@@ -148,7 +148,7 @@ func (in *Interp) installLibStubs() {
 	}
 	S["(*"+ro+".Bitmap).ReadFrom"] = func(in *Interp, fn *ssa.Function, a []Value) Value {
 		r := a[1].(IfaceV).v.(PtrV).loc
-		data := r.sub[0].v.(SliceV)
+		data := r.sub[0].get().(SliceV)
 		p, ok := in.payloadOf(data)
 		if !ok {
 			in.abort("unsupported", "ReadFrom non-abstract bytes")
@@ -175,7 +175,7 @@ func (in *Interp) installLibStubs() {
 				sb.WriteString("%!missing")
 				continue
 			}
-			arg := va.arr[va.off+ai].v
+			arg := va.arr[va.off+ai].get()
 			ai++
 			if iv, isI := arg.(IfaceV); isI {
 				arg = iv.v
